@@ -11,6 +11,11 @@ import WmModel.Props.C08Tie
 #print axioms Wm.Route.publishes_only_own
 #print axioms Wm.Route.done_context_irrelevant
 #print axioms Wm.Route.returned_outputs_published
+#print axioms Wm.Route.outputs_keep_own_context
+#print axioms Wm.Route.rexec_keeps_started
+#print axioms Wm.Route.runHandlers_idempotent
+#print axioms Wm.Route.decorated_exactly_once
+#print axioms Wm.Route.unstarted_undecorated
 #print axioms Wm.Route.published_iff
 #print axioms Wm.Route.nopub_middleware_outputs_nack
 #print axioms Wm.Route.routes_to_own_fn
